@@ -92,5 +92,36 @@ let handle = function
           ((s_step o ^ " @ " ^ s_state s') :: acc, s')) ([], Subs.init) events in
       if s <> s_ref || Stdlib.List.length steps_ref <> Stdlib.List.length acc then "driver-inconsistent"
       else Stdlib.String.concat " | " (Stdlib.List.rev acc)
+  | "conc" :: r :: t :: acts_ ->
+      (* overlapping calls (Model/SubsConc.v).  actions: ST:<s|u>:<tag>:<ids>  AN:<reply>  DR  UP:<order ids>
+         DN (answer 204 until the queue is empty)  and the base events A:<l> D:<l> E:<body>.
+         answer per action: outputs (RT:<tag>:<class>  AB:<tag>:<t|f>:<ids>  and the Subs outputs)
+         @ <subs> <listeners> <sup> <conn> <queue length> <accessory set> *)
+      let raises = raises_of r in
+      let acts = acts_of t in
+      let s_cout = function
+        | SubsConc.CO o -> s_out o
+        | SubsConc.CRet (tag, rc) -> Printf.sprintf "RT:%d:%s" (int_of_nat tag)
+            (match rc with Subs.RetNone -> "none" | Subs.RetDict -> "dict" | Subs.RetRaised -> "raised")
+        | SubsConc.CAbort (tag, ev, ids) -> Printf.sprintf "AB:%d:%s:%s" (int_of_nat tag) (if ev then "t" else "f") (s_ids ids) in
+      let step1 s tok =
+        match split ':' tok with
+        | ["ST"; k; tag; ids] -> SubsConc.cstep raises acts s (SubsConc.CStart (k = "s", nat_of_int (int_of_string tag), ids_of ids))
+        | ["AN"; rep] -> SubsConc.cstep raises acts s (SubsConc.CAnswer (reply_of rep))
+        | ["DR"] -> SubsConc.cstep raises acts s SubsConc.CDrop
+        | ["UP"; ord] -> SubsConc.cstep raises acts s (SubsConc.CConnUp (ids_of ord))
+        | ["DN"] ->
+            let rec go s acc n =
+              if s.SubsConc.queue = [] || n > 500 then (s, acc)
+              else let (s', o) = SubsConc.cstep raises acts s (SubsConc.CAnswer Subs.ROk) in go s' (acc @ o) (n + 1) in
+            go s [] 0
+        | _ -> SubsConc.cstep raises acts s (SubsConc.CBase (event_of tok)) in
+      let (acc, _) = Stdlib.List.fold_left (fun (acc, s) tok ->
+          let (s', o) = step1 s tok in
+          let line = (if o = [] then "." else Stdlib.String.concat " " (Stdlib.List.map s_cout o))
+                     ^ " @ " ^ s_state s'.SubsConc.base ^ " " ^ string_of_int (Stdlib.List.length s'.SubsConc.queue)
+                     ^ " " ^ s_ids s'.SubsConc.acc in
+          (line :: acc, s')) ([], SubsConc.cinit) acts_ in
+      Stdlib.String.concat " | " (Stdlib.List.rev acc)
   | _ -> "bad-request"
 let () = main_loop handle
